@@ -53,18 +53,19 @@ T = {
 
 def main():
     det = {}
-    for logf in ("/root/scratch/wave1_detect.log", "/root/scratch/wave2_detect.log", "/root/scratch/wave3_detect.log"):
+    import re
+    for logf in ("/root/scratch/wave1_detect.log", "/root/scratch/wave2_detect.log", "/root/scratch/wave3_detect.log", "/root/scratch/manual_detect.log"):
         if not os.path.exists(logf):
             continue
+        sid = None
         for line in open(logf):
-            if line.startswith("{"):
-                try:
-                    r = json.loads(line)
-                except Exception:
-                    continue
-                src = r["patch"]  # /tmp/mut_Cxx/mutA.diff
-                sid = src.split("/")[2].replace("mut_", "") + src.split("/")[3][3].lower()
-                det.setdefault(sid, {}).update({k: ("caught" if v["rc"] == 1 else "silent" if v["rc"] == 0 else f"rc={v['rc']}") for k, v in r["results"].items()})
+            m = re.match(r"== /tmp/mut_(C\d+)/mut([A-Z])\.diff", line)
+            if m:
+                sid = m.group(1) + m.group(2).lower()
+                continue
+            m = re.match(r"(C\d+): (CAUGHT|silent|ERROR)", line)
+            if m and sid:
+                det.setdefault(sid, {})[m.group(1)] = {"CAUGHT": "caught", "silent": "silent", "ERROR": "error"}[m.group(2)]
     rows = []
     for sid, (prop, what, needs, caught, note) in sorted(T.items()):
         d = os.path.join(ROOT, "seeded", sid)
